@@ -52,7 +52,7 @@ theorem C09_nan_payload (T : Ty) (tb : TextBuf) (sig neg : Bool) (s : PSignifica
     exact halloc
   | ok b0 =>
     rw [hw] at halloc
-    obtain ⟨n, hb0, hn, hfit, hwid⟩ := halloc
+    obtain ⟨n, hb0, hn, hfit, _, hwid⟩ := halloc
     subst hb0
     have hp : (slice tb.ascii s.range).length + 1 ≤ (Fmt.mk n).p := by
       simpa [Fmt.fitsB] using hfit
